@@ -62,6 +62,7 @@ func init() {
 	for _, o := range postOps {
 		surface[o.tok] = o.s
 	}
+	surface["NotToken"] = "!"
 }
 
 type pgen struct {
@@ -410,4 +411,142 @@ func runPrintCases(seed uint64, n int, outDir string, extra map[string]interface
 	extra["jsprint_skipped"] = skipped
 	extra["jsprint_with_dropped_parentheses"] = dropped
 	extra["jsprint_root_kinds"] = hist
+}
+
+// ---- rewrite correspondence (Js/RewriteModel.v): expressions over few identifiers (so that equal operands occur), true /
+// false, ! && || == != === !== < + * , ?: calls and parenthesised assignments; the model's print_rw must give the token
+// sequence of the real js.Minify.
+type rwgen struct {
+	r *vh.Rand
+}
+
+func (g *rwgen) atom() *pexpr {
+	return &pexpr{kind: "A", name: fmt.Sprintf("v%d", 1+g.r.Intn(4))}
+}
+
+var rwBin = []string{"AndToken", "OrToken", "AndToken", "OrToken", "EqEqToken", "NotEqToken", "EqEqEqToken", "NotEqEqToken", "LtToken", "AddToken", "MulToken", "CommaToken", "BitOrToken"}
+
+func binInfo(tok string) (lv, lf, rt int) {
+	for _, o := range binOps {
+		if o.tok == tok {
+			return o.lv, o.lf, o.rt
+		}
+	}
+	return 0, 0, 0
+}
+
+func (g *rwgen) fit(e *pexpr, need int) *pexpr {
+	if level(e) < need || g.r.Intn(5) == 0 {
+		return &pexpr{kind: "G", kids: []*pexpr{e}}
+	}
+	return e
+}
+
+func (g *rwgen) expr(depth int) *pexpr {
+	if depth <= 0 {
+		if g.r.Intn(5) == 0 {
+			return &pexpr{kind: "T", name: []string{"true", "false"}[g.r.Intn(2)]}
+		}
+		return g.atom()
+	}
+	switch k := g.r.Intn(100); {
+	case k < 18:
+		return g.atom()
+	case k < 26:
+		return &pexpr{kind: "T", name: []string{"true", "false"}[g.r.Intn(2)]}
+	case k < 42:
+		return &pexpr{kind: "P", op: "NotToken", kids: []*pexpr{g.fit(g.expr(depth-1), 14)}}
+	case k < 66:
+		op := rwBin[g.r.Intn(len(rwBin))]
+		_, lf, rt := binInfo(op)
+		x := g.expr(depth - 1)
+		if op == "CommaToken" {
+			// the parser flattens a,b,c: the left operand is a comma list only without parentheses
+			for x.kind == "G" && x.kids[0].kind == "B" && x.kids[0].op == "CommaToken" {
+				x = x.kids[0]
+			}
+			if level(x) < lf {
+				x = &pexpr{kind: "G", kids: []*pexpr{x}}
+			}
+		} else {
+			x = g.fit(x, lf)
+		}
+		y := g.fit(g.expr(depth-1), rt)
+		if op == "CommaToken" {
+			for y.kind == "B" && y.op == "CommaToken" {
+				y = &pexpr{kind: "G", kids: []*pexpr{y}}
+			}
+		}
+		return &pexpr{kind: "B", op: op, kids: []*pexpr{x, y}}
+	case k < 88:
+		c := g.fit(g.expr(depth-1), 2)
+		x := g.fit(g.expr(depth-1), 1)
+		y := g.fit(g.expr(depth-1), 1)
+		if g.r.Intn(4) == 0 { // equal bodies / body equal to the condition's variable
+			switch g.r.Intn(3) {
+			case 0:
+				y = g.atom()
+				x = &pexpr{kind: "A", name: y.name}
+			case 1:
+				c = g.atom()
+				x = &pexpr{kind: "A", name: c.name}
+			default:
+				c = g.atom()
+				y = &pexpr{kind: "A", name: c.name}
+			}
+		}
+		if g.r.Intn(5) == 0 { // calls of the same function in both bodies
+			f := fmt.Sprintf("f%d", 1+g.r.Intn(2))
+			x = &pexpr{kind: "K", kids: []*pexpr{{kind: "A", name: f}, g.fit(g.expr(depth-2), 1)}}
+			y = &pexpr{kind: "K", kids: []*pexpr{{kind: "A", name: f}, g.fit(g.expr(depth-2), 1)}}
+		}
+		return &pexpr{kind: "C", kids: []*pexpr{c, x, y}}
+	case k < 94:
+		f := &pexpr{kind: "A", name: fmt.Sprintf("f%d", 1+g.r.Intn(2))}
+		return &pexpr{kind: "K", kids: []*pexpr{f, g.fit(g.expr(depth-1), 1)}}
+	default:
+		a := &pexpr{kind: "B", op: "EqToken", kids: []*pexpr{g.atom(), g.fit(g.expr(depth-1), 1)}}
+		return &pexpr{kind: "G", kids: []*pexpr{a}}
+	}
+}
+
+func runRewriteCases(seed uint64, n int, outDir string, extra map[string]interface{}) {
+	r := vh.NewRand(seed ^ 0x7e31)
+	fin, _ := os.OpenFile(filepath.Join(outDir, "cases.in"), os.O_APPEND|os.O_WRONLY, 0o644)
+	fout, _ := os.OpenFile(filepath.Join(outDir, "cases.go.out"), os.O_APPEND|os.O_WRONLY, 0o644)
+	fsrc, _ := os.OpenFile(filepath.Join(outDir, "cases.src"), os.O_APPEND|os.O_WRONLY, 0o644)
+	defer fin.Close()
+	defer fout.Close()
+	defer fsrc.Close()
+	m := minify.New()
+	done, skipped, changed := 0, 0, 0
+	for k := 0; k < n; k++ {
+		g := &rwgen{r: r.Fork()}
+		e := g.expr(1 + r.Intn(4))
+		var src strings.Builder
+		src.WriteString("x0 = ")
+		e.source(&src)
+		var out bytes.Buffer
+		if err := (&minjs.Minifier{KeepVarNames: true}).Minify(m, &out, strings.NewReader(src.String()), nil); err != nil {
+			skipped++
+			continue
+		}
+		toks := jsTokens(out.String())
+		if len(toks) < 2 || toks[0] != "x0" || toks[1] != "=" {
+			skipped++
+			continue
+		}
+		var sx strings.Builder
+		e.sexpr(&sx)
+		fmt.Fprintf(fin, "jsrw\t%s\n", strings.TrimSpace(sx.String()))
+		fmt.Fprintf(fout, "%s\n", strings.Join(toks[2:], " "))
+		fmt.Fprintf(fsrc, "%s\n", strings.ReplaceAll(src.String(), "\n", " "))
+		done++
+		if strings.Join(jsTokens(src.String())[2:], " ") != strings.Join(toks[2:], " ") {
+			changed++
+		}
+	}
+	extra["jsrw_expressions"] = done
+	extra["jsrw_skipped"] = skipped
+	extra["jsrw_rewritten_or_regrouped"] = changed
 }
